@@ -29,6 +29,9 @@ ASSUMPTIONS = ["no description length is -inf (excluded point: with (-inf, 3) th
                "aifeyn_<n>.txt, all_equations_<n>.txt and codelen_matches_comp<n>.dat have the same number of lines; "
                "indices in column 3 are integers",
                "no -0.0 inputs (np.fmin and == treat the two zeros alike, the bit comparison would not)"]
+# tables whose committed version may stand in as a hand-written model when the translator cannot read the source;
+# value = the correspondence that then ties it to the code (common.prove / common.decide)
+FALLBACK = {'Rank': 'real combine_DL.main on random tables vs the Lean ranking model, bit-exact rows'}
 MODELLED = ["combine_DL.py:main"]
 COMP = 3
 INF = float("inf")
